@@ -129,7 +129,7 @@ func PrepareC13(ctx *Ctx) (*Prepared, error) {
 	for w := 0; w < 6; w++ {
 		funcs = append(funcs, fmt.Sprintf("VH_C13D_%02d", w), fmt.Sprintf("VH_C13N_%02d", w))
 	}
-	for w := 0; w < 7; w++ {
+	for w := 0; w < 11; w++ {
 		funcs = append(funcs, fmt.Sprintf("VH_C13U_%02d", w))
 	}
 	for w := 0; w < 8; w++ {
